@@ -119,7 +119,7 @@ pub fn u16_boundary() -> Vec<u16> {
 }
 
 /// payload lengths that put the AVP length at 7, 8, 9, 21..23, 255..257, 511/512, 1022/1023
-pub const VAR_LENGTHS: [usize; 13] = [1, 2, 3, 15, 16, 17, 249, 250, 251, 505, 506, 1016, 1017];
+pub const VAR_LENGTHS: [usize; 17] = [1, 2, 3, 15, 16, 17, 249, 250, 251, 254, 255, 256, 257, 505, 506, 1016, 1017];
 /// lengths whose AVP would exceed 1023 octets
 pub const OVERSIZE_LENGTHS: [usize; 4] = [1018, 1019, 2000, 65_530];
 
